@@ -66,6 +66,38 @@ pub fn validate_case(files: &Files) -> Vec<(&'static str, Json)> {
     vec![("op", Json::s("validate")), ("files", files_json(files)), ("impl", impl_validate(files))]
 }
 
+/// source text of a type of each of the 17 categories (given `CATEGORY_PRELUDE` and `category_defs`)
+pub const CATEGORY_TYPES: &[(&str, &str)] = &[
+    ("primitive", "int"),
+    ("void", "void"),
+    ("string", "String"),
+    ("char_sequence", "CharSequence"),
+    ("array", "int[]"),
+    ("list", "List<String>"),
+    ("map", "Map<String, String>"),
+    ("ibinder", "IBinder"),
+    ("file_descriptor", "FileDescriptor"),
+    ("parcel_file_descriptor", "ParcelFileDescriptor"),
+    ("parcelable_holder", "ParcelableHolder"),
+    ("parcelable", "Parc"),
+    ("interface", "IFace"),
+    ("enum", "En"),
+    ("fwd", "Fwd"),
+    ("unknown_import", "Unknown"),
+    ("unresolved", "Nope"),
+];
+
+pub const CATEGORY_PRELUDE: &str =
+    "import d.IFace;\nimport d.Parc;\nimport d.En;\nimport u.Unknown;\nparcelable Fwd;";
+
+pub fn category_defs() -> Files {
+    vec![
+        ("d_iface".to_owned(), "package d;\ninterface IFace {}\n".to_owned()),
+        ("d_parc".to_owned(), "package d;\nparcelable Parc {}\n".to_owned()),
+        ("d_en".to_owned(), "package d;\nenum En { A }\n".to_owned()),
+    ]
+}
+
 struct Emitter<'a> {
     suite: String,
     n: usize,
@@ -90,13 +122,17 @@ pub fn render_project(proj: &[(String, doc::Doc)], style: LayoutStyle, rng: &mut
         .collect()
 }
 
-pub fn run(suite: &str, thorough: bool, seed: u64, emit: &mut dyn FnMut(String)) {
+pub fn run(suite: &str, thorough: bool, seed: u64, shard: usize, nshards: usize, emit: &mut dyn FnMut(String)) {
     let mut em = Emitter { suite: suite.to_owned(), n: 0, emit };
-    let mut rng = Rng::new(seed);
+    let mut rng = Rng::new(seed.wrapping_mul(0x1000_0000_01B3).wrapping_add(shard as u64));
+    // random suites: each shard runs its share; exhaustive suites: indices congruent to the shard
+    let share = |total: usize| -> usize { (total + nshards - 1) / nshards };
+    let mine = |idx: usize| -> bool { idx % nshards == shard };
+    let _ = &mine;
     match suite {
         // random multi-file projects, validated
         "proj" => {
-            let n = if thorough { 20000 } else { 400 };
+            let n = share(if thorough { 20000 } else { 400 });
             for _ in 0..n {
                 let s = rng.next();
                 let mut r = Rng::new(s);
@@ -105,6 +141,42 @@ pub fn run(suite: &str, thorough: bool, seed: u64, emit: &mut dyn FnMut(String))
                 let style = if r.chance(1, 4) { LayoutStyle::Wild } else { LayoutStyle::Plain };
                 let files = render_project(&proj, style, &mut r);
                 em.case(s, validate_case(&files));
+            }
+        }
+        // C07: exhaustive 17 categories x 4 directions x method oneway x interface oneway x position
+        "dirs" => {
+            let mut idx = 0usize;
+            for (_cname, ty) in CATEGORY_TYPES {
+                for dir in ["", "in ", "out ", "inout "] {
+                    for mo in [false, true] {
+                        for io in [false, true] {
+                            for pos in 0..3usize {
+                                idx += 1;
+                                if !mine(idx) {
+                                    continue;
+                                }
+                                let mut args: Vec<String> = Vec::new();
+                                for k in 0..3usize {
+                                    if k == pos {
+                                        args.push(format!("{}{} a{}", dir, ty, k));
+                                    } else if k < pos || pos == 1 {
+                                        args.push(format!("int a{}", k));
+                                    }
+                                }
+                                let main = format!(
+                                    "package m;\n{}\n{}interface Main {{\n    {}void f({});\n}}\n",
+                                    CATEGORY_PRELUDE,
+                                    if io { "oneway " } else { "" },
+                                    if mo { "oneway " } else { "" },
+                                    args.join(", ")
+                                );
+                                let mut files = category_defs();
+                                files.push(("main".to_owned(), main));
+                                em.case(idx as u64, validate_case(&files));
+                            }
+                        }
+                    }
+                }
             }
         }
         _ => {
